@@ -182,6 +182,10 @@ func codecSamples() []codecSample {
 			return []errorCause{&errorCauseUnrecognizedChunkType{unrecognizedChunk: bytesN(8, 5)}, &errorCauseProtocolViolation{errorCauseHeader: errorCauseHeader{code: protocolViolation}}}
 		}, []wTLV{{6, bytesN(8, 5)}, {13, []byte{}}}},
 		{"unknown4", func() []errorCause { return []errorCause{&errorCauseHeader{code: 99, raw: bytesN(4, 6)}} }, []wTLV{{99, bytesN(4, 6)}}},
+		// a cause whose length is not a multiple of four followed by another cause
+		{"pv3+user5", func() []errorCause {
+			return []errorCause{&errorCauseProtocolViolation{errorCauseHeader: errorCauseHeader{code: protocolViolation}, additionalInformation: bytesN(3, 1)}, &errorCauseUserInitiatedAbort{upperLayerAbortReason: bytesN(5, 2)}}
+		}, []wTLV{{13, bytesN(3, 1)}, {12, bytesN(5, 2)}}},
 	}
 	for _, cs := range causeSets {
 		cs := cs
